@@ -19,10 +19,11 @@ let () = iter_lines (fun line ->
       (match host_is_trusted (idna tbl) (opt h) (strs l) with Ok v -> "ok " ^ bs v | Err e -> "exn:" ^ exn_s e)
   | ["sp"; h] -> csv_of_nlist (strip_port (nlist_of_csv h))
   | ["int"; s] -> (match parse_int (nlist_of_csv s) with IOk z -> "ok " ^ string_of_int (int_of_z z) | IValueError -> "ValueError" | IUnsupported -> "unsupported")
-  | ["gh"; scheme; hh; sn; sp; tr; tbl] ->
+  | [("gh" | "rh" | "wgh") as which; scheme; hh; sn; sp; tr; tbl] ->
       let server = match opt sn with None -> None | Some n -> Some (n, opt sp) in
       let trusted = if tr = "~~" then None else Some (strs tr) in
-      (match get_host (idna tbl) (nlist_of_csv scheme) (opt hh) server trusted with Ok v -> "ok " ^ csv_of_nlist v | Err e -> "exn:" ^ exn_s e)
+      let f = if which = "gh" then get_host else if which = "rh" then request_host else wsgi_get_host in
+      (match f (idna tbl) (nlist_of_csv scheme) (opt hh) server trusted with Ok v -> "ok " ^ csv_of_nlist v | Err e -> "exn:" ^ exn_s e)
   | ["run"; evalex; cpath; secret; frames; pin; pinhash; plog; trusted; args; path; host; cookie; now; count; tbl] ->
       let cfg = { c_evalex = b evalex; c_console_path = opt cpath; c_secret = nlist_of_csv secret;
                   c_frames = List.map (fun x -> z_of_int (int_of_string x)) (split ',' frames);
